@@ -637,7 +637,10 @@ def probe_df(ctx, desc):
         raised = True
     m_ans = ctx.lean(f"df {wl(rates)} {wl(tenors)} {wl([beyond])}")
     if (m_ans == "[err]") != raised:
-        ctx.fail("corr", probe + ".model_domain", desc, {"name": "Drivers/C16 df domain (IndexError beyond the last tenor)", "impl_raised": raised, "model": m_ans}, cls=cls)
+        # the statement quantifies over "all times up to the last tenor": what happens beyond the curve (IndexError today, M says
+        # `err`) is not constrained, so a disagreement there is an observation, never a failure (a clamped extrapolation is a
+        # property-preserving change: found by the source-tie mutation b4 of §9.2)
+        ctx.branches["observation:df_beyond_last_tenor_differs_from_model"] += 1
 
 
 # --------------------------------------------------------------------------------------------- generators
